@@ -15,10 +15,15 @@ def oracles_():
 
 MANIFEST = {
     "text": "Coq theorems (Properties_C10_ytext.v): the YANG printer's string output (ypr_encode/ypr_text, both layouts and quote "
-            "kinds, every indentation level) is read back by the quoted-string lexer as the same argument for every string under "
-            "exactly the hypotheses the proof forces (no CR, no blank before LF, ...), each hypothesis with a refutation witness; "
-            "print is a fixpoint under them. Tie: extracted model vs the static C functions (T2). Whole-module print/parse/print is "
-            "checked by the API oracle (search).",
+            "kinds, every indentation level) is read back by the quoted-string lexer as the same argument: for double-quoted "
+            "printing for every lexable string without a carriage return (C10_yang_text_roundtrip_dquoted; blanks before a "
+            "newline and, in the single-line layout, after a newline are covered since the printer escapes such a newline, "
+            "C10_yang_text_roundtrip_trailing_ws_fixed / _singleline_indent_fixed), for single-quoted printing for every "
+            "string without a newline; each remaining hypothesis has a refutation witness (_cr_refuted, "
+            "_squote_newline_refuted, _print_fixpoint_cr_refuted, _char_plane4_refuted); print is a fixpoint under the same "
+            "hypotheses (C10_yang_text_print_fixpoint_partial). Tie: extracted model vs the static C functions (T2). "
+            "Whole-module print/parse/print of description, units, presence and (double- or single-quoted) default "
+            "arguments is checked by the API oracle (search).",
     "note": "Modelled C: ypr_encode, ypr_text, ypr_text_squote_line, read_qstring via get_argument, buf_store_char. Statement-level "
             "printers (printer_yang.c/printer_yin.c bodies, extension instances) are only reached by the oracle.",
     "technique": "Coq proof (printer/lexer round trip) + differential correspondence + module round-trip oracle",
